@@ -3179,6 +3179,17 @@ def coverage_pass(label, op):
             if hasattr(x, 'space') and op.domain == op.range:
                 xa = x.copy()
                 safe_call(op, xa, out=xa)
+            # `out` IS the operator's own step-size element (proximals with an element sigma):
+            # the branch `if sig is out`; the element is restored afterwards
+            sig = getattr(op, 'sigma', None)
+            if hasattr(sig, 'space') and hasattr(x, 'copy'):
+                try:
+                    if sig in op.range:
+                        keep = sig.copy()
+                        safe_call(op, x.copy(), out=sig)
+                        sig.assign(keep)
+                except Exception:  # noqa
+                    pass
     finally:
         COVERAGE.enabled = False
 
